@@ -13,6 +13,27 @@ from typing import Optional, Iterator, Iterable, Callable
 
 from transforge.label import Labels
 
+# Verification hooks (inactive unless TRANSFORGE_VERIF=1): deterministic,
+# externally schedulable iteration order for pending-constraint re-checks.
+import os as _os
+_VERIF = _os.environ.get("TRANSFORGE_VERIF") == "1"
+_verif_counter = count()
+_verif_schedule = None  # optional callable: list of pending constraints -> list
+
+
+class _VerifOrderedSet(set):
+    """A set iterated in constraint-creation order; at a re-check point the
+    installed schedule may permute that order."""
+    _verif_checkpoint = False
+
+    def __iter__(self):
+        items = sorted(set.__iter__(self), key=lambda c: c._verif_seq)
+        if self._verif_checkpoint:
+            self._verif_checkpoint = False
+            if _verif_schedule is not None and len(items) >= 2:
+                items = list(_verif_schedule(items))
+        return iter(items)
+
 
 class Direction(Enum):
     UP = auto()
@@ -784,9 +805,13 @@ class TypeVariable(TypeInstance):
         self.lower: Optional[TypeOperator] = None
         self.upper: Optional[TypeOperator] = None
         self._constraints: set[Constraint] = set()
+        if _VERIF:
+            self._constraints = _VerifOrderedSet()
         self.origin = origin
 
     def check_constraints(self) -> None:
+        if _VERIF:
+            self._constraints._verif_checkpoint = True
         for c in list(self._constraints):
             if c.fulfill():
                 try:
@@ -931,6 +956,8 @@ class TypeAlias(Type):
 class Constraint(object):
     @abstractmethod
     def __init__(self):
+        if _VERIF:
+            self._verif_seq = next(_verif_counter)
         self.fulfilled = False
         self.inform()
         self.fulfill()
